@@ -295,6 +295,37 @@ def _check(ctx, tmp):
                 if not close(v0, v1):
                     ctx.violation("base-dependence", "%s under base %s vs %s" % (e, ref[0], nm), repr(v0), repr(v1), how)
 
+    # ---- ONE conversion per fresh process: what a code means must not depend on which units the process looked up before.
+    # Codes that also spell a prefixed physical unit (php = pico-horsepower, kyd = kilo-yard, ...) first, then a sample.
+    phys = [u for u in U.UNITS if "cash" not in u.quantities]
+    readings = set()
+    for p_ in U.PREFIXES:
+        for u in phys:
+            readings.add(p_.symbol_prefix + u.symbol)
+            readings.add(p_.name_prefix + u.singular_name)
+            readings.add(p_.name_prefix + u.plural_name)
+    amb = sorted(c for c in codes if c in readings)
+    singles = [(c, "usd") for c in amb] + [("usd", c) for c in amb[:3]]
+    pool_codes = sorted(codes)
+    while len(singles) < len(amb) * 2 + ctx.n(10, 60):
+        a, b = rng.sample(pool_codes, 2)
+        singles.append((a, b))
+    one_home = mkhome(root, "single")
+    sexprs = ["%s %s to %s" % (AMOUNTS[3][0], a, b) for a, b in singles]
+    with ThreadPoolExecutor(max_workers=8) as ex:
+        souts = list(ex.map(lambda ie: run_batch(one_home, [ie[1]], tmp, "single%d" % ie[0]), enumerate(sexprs)))
+    for (a, b), e, out in zip(singles, sexprs, souts):
+        ctx.count("single:" + e, bucket="one-conversion-per-process" + ("/also-a-prefixed-unit" if a in amb or b in amb else ""))
+        how = "a fresh process (default files) whose only input is %r" % e
+        if "crash" in out:
+            ctx.violation("single-crash", e, "starts", out["crash"], how)
+            continue
+        st, v, err = out["results"][0]
+        want_v = expect(AMOUNTS[3][1], a, b)
+        if st != 0 or not close(v, want_v):
+            ctx.violation("conversion-first-in-process", e, repr(float(want_v)), "status=%r value=%r %s" % (st, v, err), how)
+    ctx.cov["codes_that_also_spell_a_prefixed_unit"] = amb
+
     # ---- the real writer -> the real reader -> conversions use ITS rates
     def rand_word(n):
         return "".join(rng.choice("abcdefghijklmnopqrstuvwxyz") for _ in range(n))
@@ -368,6 +399,13 @@ def _check(ctx, tmp):
     odd_file = os.path.join(odd_dir, "Table-2024.CSV")
     _sh.copy(wfile, odd_file)
     whomes.append(("mixed-case-path", mkhome(root, "w-mixed", config="Currency-Path-Is-Not-A-Key = 1\ncurrency-path = %s\n" % odd_file), "eur"))
+    # ... and through directories whose names contain a space followed by '#', '=', ';', ',' and non-ASCII letters
+    for j, parts in enumerate([("exchange rates", "2026 #3"), ("a=b", "c;d,e"), ("tàux de chänge", "x #"), ("#first", " lead")]):
+        d_ = os.path.join(root, *parts)
+        os.makedirs(d_)
+        f_ = os.path.join(d_, "currency #%d" % j)
+        _sh.copy(wfile, f_)
+        whomes.append(("odd-path-%d" % j, mkhome(root, "w-odd%d" % j, config="precision=7\ncurrency-path=%s\n" % f_), "eur"))
     with ThreadPoolExecutor(max_workers=4) as ex:
         wouts = list(ex.map(lambda h: run_batch(h[1], wexprs, tmp, "w-" + h[0]), whomes))
     for (nm, home, want), out in zip(whomes, wouts):
@@ -391,7 +429,9 @@ def _check(ctx, tmp):
     # ---- a table with unusable rows in the MIDDLE (rate 0, negative, nan): those codes simply do not exist; every other
     # row keeps ITS OWN rate (table-consistency for the rows that are usable)
     dt = []
-    for i, (s_, n_, r_) in enumerate(wt[: ctx.n(16, 40)]):
+    head_ = wt[: ctx.n(16, 40)]
+    head_ += [row for row in wt if row[0] in ("usd", "eur") and row not in head_]      # without eur there is no default base at all
+    for i, (s_, n_, r_) in enumerate(head_):
         dt.append((s_, n_, r_))
         if i in (2, 5, 6, 11):
             dt.append(("z" + rand_word(3), "bad" + rand_word(5), [0.0, -1.5, float("nan"), -0.0][len(dt) % 4]))
